@@ -450,6 +450,39 @@ def exception_table_oracle(co, items, ops, nodes, order, opcodes, ops_line=None)
   return v
 
 
+def composite_case(ob, ids=None):
+  """Model input built from CPython's OWN data for this code object (dis instructions with offsets and jump targets,
+  dis._parse_exception_table) - only the source line of each instruction is taken from pytype's opcode, because the
+  `first entry of a line` rule of _add_setup_except is defined on pycnite's line numbers.  Returns
+  (driver line, expected output) where the expected output is the real opcode list of pytype."""
+  import dis  # pylint: disable=import-outside-toplevel
+  ids = ids or CLASS_IDS
+  co = ob.host_code
+  lines = {off: (op.line or 0) for off, op in ob.items if isinstance(off, int)}
+  raw = []
+  start = None
+  for ins in dis.get_instructions(co):
+    if ins.opname == "EXTENDED_ARG":
+      if start is None:
+        start = ins.offset
+      continue
+    off = ins.offset if start is None else start
+    start = None
+    if ins.opname not in ids:
+      return None
+    arg = -1
+    if ins.opcode in dis.hasjrel or ins.opcode in dis.hasjabs:
+      arg = 2 * int(ins.argval) + 1
+    raw.append("%d %d %d %d" % (2 * off + 1, ids[ins.opname], lines.get(off, 0), arg))
+  ents = ["%d %d %d %d" % (e.start, e.end - 2, e.target, 1 if e.lasti else 0)
+          for e in dis._parse_exception_table(co)]  # pylint: disable=protected-access
+  inp = "C 12 %d %d %s %s" % (len(ents), len(raw), " ".join(ents), " ".join(raw))
+  f = ob.real_ops_line.split(";") if ob.real_ops_line else []
+  want = ";".join("%s,%d,%s" % (x.split(",")[0], ids[o.__class__.__name__], ",".join(x.split(",")[1:]))
+                  for x, o in zip(f, ob.ops))
+  return inp, want
+
+
 def code_kind(oc):
   n = oc.name
   if n == "<module>":
